@@ -155,8 +155,77 @@ def build(tier):
         fns.append(info)
     return {
         'targets': targets, 'vcs': vcs, 'functions': fns,
-        'decided': [],
-        'not_decided': [],
-        'assumptions': [],
+        'decided': [
+            'pool_t::map (chunked), tsize = tensor_size_t / size_t / int, every elements, chunksize >= 1, pool size >= 1: the (begin, end) ranges handed to the operator (sequential branch) or captured by value into the enqueued tasks (parallel branch) tile [0, elements): first at 0, consecutive, non-empty, end == min(begin + chunksize, elements), last ends at elements; the recurrence has one solution, so both branches generate the same sequence; only one branch generates; something is generated iff elements > 0',
+            'number of generated ranges == (elements + chunksize - 1) / chunksize == the count passed to section.reserve (SMT over Int, with overflow obligations)',
+            'pool_t::map (un-chunked): indices 0..elements-1 once each, in order; number of tasks == elements == reserve count',
+            'each task lambda calls the operator exactly once on exactly its captured range / index with the worker id it is run with; the sequential branch passes worker id 0 < pool size',
+            'map protocol: tasks are pushed with the queue mutex held; the mutex is released before blocking; workers are notified after the last push and before blocking; the section holds exactly one future per task, in order; block gets the caller\'s raise flag; on the normal and on the exceptional path map returns only after ~section_t waited for every task; an exception leaves map only if raise is set',
+            'worker loop (one worker, monitor semantics for wait(lock, pred) with the real predicate): front/pop_front only on a non-empty queue with the lock held; the popped task is the one run, exactly once, with this worker\'s id, after the lock was released; the worker leaves only after seeing stop, with the queue cleared, the others notified, no lock held, nothing run after stop was seen',
+            'pool_t::pool_t(threads): #workers == #threads == clamp(threads, 1, max_size()) in [1, max_size()], worker k gets id k (so every id < size()); max_size() == max(1, hardware_concurrency) >= 1; worker_t constructor stores its id',
+            '~pool_t: stop written with the mutex held, workers notified after that, mutex released before any join, every thread joined exactly once',
+            'section_t::block(raise): every future visited once in order; valid futures waited with get() iff raise else wait(); exception leaves only if raise; ~section_t calls block(false) once',
+            'queue_t::enqueue_no_lock / enqueue: exactly one task is pushed, the returned future is that task\'s; enqueue pushes under the lock and notifies once afterwards'],
+        'not_decided': [
+            'EVERY interleaving claim of the property: that each enqueued task is executed exactly once when several workers and submitters run concurrently, that a worker id is never used by two tasks of one call at the same time, that map returns only after all tasks finished under every schedule, absence of lost wake-ups, deadlock-free shutdown with busy workers / queued tasks, several threads submitting to one pool',
+            'data races on the operator\'s own state; exceptions thrown by the operator in the sequential branch',
+            'std::thread(std::cref(worker)) starts worker k on thread k (lambda inside std::transform: not extractable, dependent types)',
+            'that clearing the queue on stop breaks the promises of the dropped tasks (std::packaged_task destructor semantics)',
+            'chunked map with chunksize < elements and elements + chunksize not representable in tsize (precondition, see assumptions)'],
+        'assumptions': [
+            'PRECONDITION (reported, not a finding): chunksize >= 1 (map\'s own assert) and, when chunksize < elements, elements + chunksize <= max(tsize); otherwise `elements + chunksize - 1` / `begin + chunksize` / `begin += chunksize` overflow (signed: UB; unsigned: wrong reserve count, possibly non-termination).  Only a real restriction for tsize = int; libnano\'s callers use tensor_size_t sample counts and small batch sizes',
+            'pool size >= 1 when map is called (proved as the constructor\'s postcondition)',
+            'std::condition_variable::wait(lock, pred) returns with the lock held and pred() true; while waiting and while a task runs the queue is arbitrary (monitor semantics)',
+            'std::deque is a FIFO: front() is the oldest element, pop_front() removes it, emplace_back appends; clear() empties',
+            'std::scoped_lock / std::unique_lock lock in the constructor and unlock in the destructor; destructors of locals run at scope exit in reverse order (C++ rule, applied by the printer)',
+            'std::min / std::max / std::clamp (with lo <= hi) return the mathematical min / max / clamp',
+            'std::vector::emplace_back appends one element; std::transform + back_inserter appends one output per input; range-for visits begin..end',
+            'std::packaged_task(f) holds f, get_future() returns its future, moving it leaves it empty; shared_future::get() waits then rethrows, wait() waits',
+            'queue_t::enqueue_no_lock as used inside map is modelled by the values the pushed lambda captures (checked by-copy); its own body is verified in target enqueue_no_lock',
+            'worker_t::m_queue (a reference member) is modelled as the worker\'s own view of the queue; default-constructed queue_t has m_stop == false and no tasks (default member initialiser, not extracted)',
+            'the user operator is opaque and, in the contracts, does not throw'],
         'trusted': [],
     }
+
+
+def replay(rp):
+    """map targets: the counterexample's (elements, chunksize) on the REAL pool (header + src/core/parallel.cpp of the working
+    tree) with a recording operator, for pool sizes 1, 2, 4; the tiling and worker-id clauses are checked on what was
+    observed.  Protocol targets (worker loop, constructor, destructor, block, enqueue) have no native driver: a failing
+    schedule cannot be forced from outside."""
+    import os
+    import re
+    import replaylib
+    out = {'reproduced': False, 'runs': []}
+    m = re.match(r'map_(chunk|index)(?:_count)?_(i64|u64|i32)$', rp['target'])
+    if not m:
+        out['note'] = 'no native driver for this target: the replay file carries the verifier output only'
+        return out
+    kind, tag = m.groups()
+    exe = replaylib.build_header_only('replay/C17_replay.cpp', 'C17_replay',
+                                      extra=[os.path.join(replaylib.REPO, 'src/core/parallel.cpp'), '-lpthread'])
+    cands = []
+    for fo in rp['failed_obligations']:
+        ce = fo.get('counterexample') or {}
+        model = replaylib.parse_model(ce.get('model', '')) if 'model' in ce else {}
+        el = ce.get('main::elements', ce.get('elements', model.get('elements')))
+        ch = ce.get('main::chunksize', ce.get('chunksize', model.get('chunksize')))
+        try:
+            el = int(re.sub(r'[uUlL]+$', '', str(el)))
+            ch = int(re.sub(r'[uUlL]+$', '', str(ch))) if kind == 'chunk' else 0
+        except (TypeError, ValueError):
+            continue
+        if (el, ch) not in cands:
+            cands.append((el, ch))
+    cands += [c for c in ([(10, 3), (9, 3), (1, 1), (7, 7), (8, 7)] if kind == 'chunk' else [(5, 0), (2, 0), (1, 0)]) if c not in cands]
+    for el, ch in cands[:8]:
+        for threads in (1, 2, 4):
+            try:
+                rc, so, se = replaylib.run_driver(exe, [tag, el, ch, threads], timeout=60)
+            except Exception as e:
+                out['runs'].append({'elements': el, 'chunksize': ch, 'threads': threads, 'error': repr(e)})
+                continue
+            out['runs'].append({'elements': el, 'chunksize': ch, 'threads': threads, 'exit': rc, 'output': so.strip()})
+            if rc == 1:
+                out['reproduced'] = True
+    return out
